@@ -210,7 +210,7 @@ func checkAllocator(c *Ctx) {
 		return true
 	})
 	if branch == nil || branch.Else == nil {
-		c.softUndecided("allocator: allocINode no longer branches on `len(g.freeInodes) == 0` with an else arm: the allocator rules cannot be applied")
+		c.shapeChanged("allocator.shape", alloc.ID, p.Pos(alloc.Decl.Pos()), alloc.ID, "allocINode no longer branches on `len(g.freeInodes) == 0` with an else arm: the allocator rules cannot be applied")
 		return
 	}
 	// result variable: the one returned
